@@ -329,9 +329,8 @@ def _tunnel(sock: socket.socket, host, port: int, auth) -> socket.socket:
 
     # TODO: support digest auth.
     if auth and auth[0]:
-        auth_str = auth[0]
-        if auth[1]:
-            auth_str += f":{auth[1]}"
+        # RFC 7617: user-id ":" password, the colon also before an empty password
+        auth_str = f"{auth[0]}:{auth[1] or ''}"
         encoded_str = base64encode(auth_str.encode()).strip().decode().replace("\n", "")
         connect_header += f"Proxy-Authorization: Basic {encoded_str}\r\n"
     connect_header += "\r\n"
